@@ -1,9 +1,10 @@
 SPECIFICATION Spec
 CONSTANTS
     Catalogue <- McCatalogue
+    SelIds = {1, 2, 3, 4, 5, 6, 7}
     MaxSegs = 2
     Dev = {"CopyPathIgnoresDrops"}
     FieldBytes <- McFieldBytes
-    NormOf <- McNormOf
+    NormTable <- McNormTable
 INVARIANT AllRefine
 CHECK_DEADLOCK FALSE
